@@ -40,6 +40,8 @@ def rand_table(rng):
                 table[(e, s)] = 1 if rng.random() < 0.75 else rng.choice(PALETTE)
             elif rng.random() < 0.25:
                 table[(e, s)] = rng.choice(PALETTE)
+        if rng.random() < 0.15:
+            table[(e, '')] = rng.choice(PALETTE)      # a subgrader may well credit a blank entry (when blanks are tolerated)
     return table
 
 
